@@ -3,6 +3,7 @@
 -/
 import MediaSan.Vp8l.Huffman
 import MediaSan.Spec.CanonicalCode
+import MediaSan.Lemmas.Kraft
 namespace MediaSan.Props.C18
 open MediaSan MediaSan.Vp8l
 
@@ -62,6 +63,17 @@ theorem C18_decode_no_panic (t : HTree) (hc : t.complete = true) (b : ByteArray)
         · exact ihz hc.1 f (p + 1) (by omega) site
         · exact iho hc.2 f (p + 1) (by omega) site
 
+/-- Soundness of the canonical-code builder, for EVERY code-length vector: if `CanonicalHuffmanTree::new` accepts it,
+    then either exactly one symbol is used and its length is 1 (the zero-bit special case), or the Kraft sum of the
+    used lengths is exactly 1 (Σ 2^(H−len) = 2^H for any H bounding the lengths).  So no under-subscribed
+    (incomplete) and no over-subscribed length set is ever accepted — the two rejection classes C07 names.
+    Proof: leaf weights in the bitstream-io trie (insertion adds 2^(H−|code|), a finalised trie weighs 2^H), code
+    lengths of the canonical assignment equal the given lengths, sums are invariant under the (length, symbol) sort. -/
+theorem C18_accept_kraft (lens : List (Nat × Nat)) (c : Code) (H : Nat) (hH : ∀ x ∈ lens, x.2 ≤ H)
+    (h : newCode lens = .ok c) :
+    (∃ s, (sortByLenSym lens).filter (fun x => x.2 ≠ 0) = [(s, 1)]) ∨ kraftW H lens = 2 ^ H :=
+  newCode_kraft lens c H hH h
+
 /-- the increment used between consecutive codes is binary +1 with wrap-around -/
 def codeVal : List Bool → Nat
   | [] => 0
@@ -71,6 +83,10 @@ theorem incCode_length (c : List Bool) : (incCode c).length = c.length := by
   induction c with
   | nil => rfl
   | cons b bs ih => simp only [incCode]; split <;> simp [ih]
+
+-- Non-vacuity: a complete vector is accepted and has Kraft weight 2^H; an incomplete one is rejected
+example : (newCode [(0,1),(1,2),(2,2)]).isOk = true ∧ kraftW 2 [(0,1),(1,2),(2,2)] = 4 := by decide
+example : (newCode [(0,2),(1,2),(2,2)]).isOk = false := by decide
 
 -- Non-vacuity: the RFC 1951 example (lengths 3,3,3,3,3,2,4,4 for A..H) gets the RFC's codes
 example : canonicalSymbols [(0,3),(1,3),(2,3),(3,3),(4,3),(5,2),(6,4),(7,4)] =
